@@ -214,8 +214,9 @@ func newDateTime(argumentList []Value, location *Time.Location) float64 {
 			return math.NaN()
 		}
 
-		if year >= 0 && year <= 99 {
-			year += 1900
+		// 15.9.3.1 step 8: the two-digit rule applies to ToInteger(year).
+		if y := math.Trunc(year); y >= 0 && y <= 99 {
+			year = y + 1900
 		}
 
 		time := Time.Date(int(year), dateToGoMonth(int(month)), int(day), int(hour), int(minute), int(second), int(millisecond)*1000*1000, location)
